@@ -309,8 +309,13 @@ _public_ int m_mod_ps_subscribe(m_mod_t *mod, const char *topic, m_src_flags fla
             ev_src_t *old_sub = m_map_get(mod->subscriptions, topic);
             if (old_sub) {
                 if (old_sub->flags == flags) {
-                    /* Only update userptr */
+                    /* Only update userptr (the subscription owns the previous one if M_SRC_AUTOFREE) */
+                    if ((old_sub->flags & M_SRC_AUTOFREE) && old_sub->userptr != userptr) {
+                        memhook._free((void *)old_sub->userptr);
+                    }
                     old_sub->userptr = userptr;
+                    /* The already compiled regex of the existing subscription stays in use */
+                    regfree(&regex);
                     return 0;
                 }
                 /*
